@@ -248,6 +248,14 @@ def finish(pid, prop, tier, seed, repo, results, canaries, wall):
     for l in lines:
         print(l)
     if violations:
+        import collections
+        cls = collections.OrderedDict()
+        for v in violations:
+            key = (tuple(sorted((k, str(x)) for k, x in v['cfg'].items() if k in ('part', 'route', 'route2', 'mutation', 'direction', 'op', 'fn', 'carrier', 'entry', 'field', 'mode', 'sizing'))), tuple(v['failed'][:3]))
+            cls.setdefault(key, [0, v])[0] += 1
+        print('  %d violation classes (by configuration kind and failed obligations):' % len(cls))
+        for key, (cnt, v) in list(cls.items())[:40]:
+            print('   x%d %s failed=%s' % (cnt, dict(key[0]), list(key[1])))
         for v in violations[:5]:
             print('  e.g. cfg=%s inputs=%s failed=%s' % (json.dumps(v['cfg']), json.dumps(v['inputs']), v['failed']))
         return 1
